@@ -36,15 +36,19 @@ def exIter1 : List Step := exToParse ++ [.parse, .trySend, .iterEnd, .rxRecv]
 def exIter2 : List Step := exIter1 ++ exToParse ++ [.parse, .trySend]
 
 /-- Reachability of the end of a concrete schedule, with an observation `f` of the final state. -/
-private theorem ex_reach {α : Type} {steps : List Step} {f : State → α} {v : α}
-    (h : (run exP exA exScript (init exP) steps).map f = some v) :
-    ∃ s, Reach exP exA exScript s ∧ f s = v := by
-  cases hr : run exP exA exScript (init exP) steps with
+private theorem ex_reach' {α : Type} {A : Assembler} {steps : List Step} {f : State → α} {v : α}
+    (h : (run exP A exScript (init exP) steps).map f = some v) :
+    ∃ s, Reach exP A exScript s ∧ f s = v := by
+  cases hr : run exP A exScript (init exP) steps with
   | none => rw [hr] at h; cases h
   | some s =>
     rw [hr] at h
     simp only [Option.map_some, Option.some.injEq] at h
     exact ⟨s, reach_of_run Reach.init hr, h⟩
+
+private theorem ex_reach {α : Type} {steps : List Step} {f : State → α} {v : α}
+    (h : (run exP exA exScript (init exP) steps).map f = some v) :
+    ∃ s, Reach exP exA exScript s ∧ f s = v := ex_reach' h
 
 /-! ## 6. recv_le_buf -/
 
@@ -117,6 +121,13 @@ private theorem reach_inv {P : Params} {A : Assembler} {script : List Item} {s :
       pend_le_step ih.pool ih.pend hs, PendOwn_step ih.pool ih.pown hs,
       KeepUp_step ih.order ih.keep hs, Seg_step ih.pool ih.seg hs,
       Asmd_step ih.pool ih.sizes ih.asmd hs, Contig_step ih.pool ih.sizes ih.contig hs⟩
+
+/-- non-vacuity for handed-back buffers of a FOREIGN size: the receiver sends back a payload this
+loop never produced (1 byte; `maximum_payload_size` is 3); the loop takes it from the send-back
+channel and resizes it, so every slice of `read_payload` is in range (`recv_le_buf`). -/
+example : ∃ s, Reach exP exA exScript s ∧
+    (s.pc, s.cur.map (fun b => (b.id, b.bytes.length)), s.nextBuf) = (.submit 0, some (0, 3), 1) :=
+  ex_reach (steps := [.rxSendForeign [9], .checkCancel, .obtainBack]) (by decide)
 
 /-! ## 1. frames_intact -/
 
@@ -236,15 +247,31 @@ def exFrames : List (List Bytes) :=
 example : ConformingFraming exP exScript exFrames := by
   refine ⟨by decide, by decide⟩
 
-/-- non-vacuity of the hypotheses of `frames_intact`: "is a leader" = starts with byte 1 -/
-example : (∀ lb tb buf r b, (fun lb _ _ read => if lb.head? = some (1 : UInt8) then Asm.built ⟨read, 7⟩ else .leaderErr : Assembler)
-      lb tb buf r = .built b → lb.head? = some 1) ∧
-    (∀ f ∈ exFrames, ∀ i (h : i < f.length), (f[i]).head? = some (1 : UInt8) → i = 0) := by
-  refine ⟨?_, by decide⟩
-  intro lb tb buf r b hb
-  by_cases h : lb.head? = some (1 : UInt8)
-  · exact h
-  · simp [h] at hb
+/-- an assembler that builds only from leader bytes starting with byte 1 -/
+def exA2 : Assembler := fun lb _ _ read =>
+  if lb.head? = some (1 : UInt8) then Asm.built ⟨read, 7⟩ else .leaderErr
+
+/-- JOINT non-vacuity of `frames_intact`: with the conditional assembler `exA2` and "is a leader"
+= "starts with byte 1", all three hypotheses hold on the example script, a state with two enqueued
+payloads is reachable, and the theorem's conclusion identifies them as frames 0 and 1. -/
+example : ∃ s, Reach exP exA2 exScript s ∧ s.sentLog.length = 2 ∧
+    ∀ m ∈ s.sentLog, ∃ q, ∃ hq : q < exFrames.length, m.start = q * exP.T ∧ m.parts = exFrames[q] ∧
+      m.buf.bytes.take m.read = (middle exFrames[q]).flatten := by
+  obtain ⟨s, hr, hs⟩ := ex_reach' (A := exA2) (steps := exIter2) (f := fun s => s.sentLog.length)
+    (v := 2) (by decide)
+  refine ⟨s, hr, hs, ?_⟩
+  intro m hm
+  have hA : ∀ lb tb buf r b, exA2 lb tb buf r = .built b → lb.head? = some (1 : UInt8) := by
+    intro lb tb buf r b hb
+    by_cases h : lb.head? = some (1 : UInt8)
+    · exact h
+    · simp [exA2, h] at hb
+  have hL : ∀ f ∈ exFrames, ∀ i (h : i < f.length), (f[i]).head? = some (1 : UInt8) → i = 0 := by
+    decide
+  obtain ⟨q, hq, h1, h2, _, h4, _⟩ :=
+    frames_intact exP exA2 exScript exFrames (fun b => b.head? = some (1 : UInt8))
+      ⟨by decide, by decide⟩ hA hL s hr m hm
+  exact ⟨q, hq, h1, h2, h4⟩
 
 /-- non-vacuity: two payloads enqueued from the segments starting at 0 and 4 (= T) -/
 example : ∃ s, Reach exP exA exScript s ∧
